@@ -378,6 +378,8 @@ def shrink(propmod, plan, target_cls, worker, max_runs=400):
     """ddmin over cycles, then over steps inside cycles, then prop-specific argument shrinking;
     keeps only candidates that still fail with the same violation class."""
     runs = [0]
+    if os.environ.get('VERIF_NO_SHRINK'):      # (for storing a finding's plan as generated)
+        return plan, 0
 
     def fails(p):
         if runs[0] >= max_runs:
@@ -446,6 +448,32 @@ def match_known(known, prop, cls):
         if k.get('status') == 'known' and k['property'] == prop and re.fullmatch(k['signature'], cls):
             return k
     return None
+
+
+def regression_replays(propmod, prop, variant, known):
+    """the stored plans of repaired findings (known_findings.json, status fixed) are run again with every check: a finding that
+    returns is reported with its own replay file, whether or not the seeded search happens to meet it again"""
+    out = []; n = 0
+    entries = [k for k in known if k.get('status') == 'fixed' and k.get('property') == prop and k.get('replay')]
+    if not entries: return out, 0
+    w = Worker(variant, exe=getattr(propmod, 'EXE', 'nsim')); w.start()
+    try:
+        for k in entries:
+            path = os.path.join(ROOT, k['replay'])
+            if not os.path.exists(path): continue
+            plan = Plan.from_json(json.load(open(path))['plan'])
+            n += 1
+            if hasattr(propmod, 'check_point'):
+                base = w.run(propmod.without_fault(plan)); res = w.run(plan)
+                info = propmod.base_info(propmod.without_fault(plan), base)
+                viols = propmod.check_point(plan, res, info) if propmod.has_fault(plan) else propmod.check_base(plan, res)
+            else:
+                res = w.run(plan); viols = propmod.check(plan, res)
+            viols = [v for v in viols if not match_known(known, prop, v.cls)]
+            if viols: out.append((path, viols[0], k))
+    finally:
+        w.stop()
+    return out, n
 
 
 # ---------------------------------------------------------------------------------- driver
@@ -553,9 +581,15 @@ def run_check(propmod, prop, tier, verif_seed, n_runs, variant='asan', jobs=None
         w.stop()
     for cls, (k, idxs) in sorted(known_hits.items()):
         print('KNOWN-FINDING: property=%s %s [%s; %d runs]' % (prop, k['what_fails'], cls, len(idxs)))
+    back, n_regr = regression_replays(propmod, prop, variant, known)
+    for path, v, k in back:
+        print('VIOLATION property=%s replay=%s  # returned (repaired in %s): %s' % (prop, path, k.get('commit', '?'), v))
+        exit_code = max(exit_code, 1)
 
     # evidence
     ev = make_evidence(propmod, prop, tier, verif_seed, main, det, by_cls, known_hits, time.time() - t0)
+    ev['coverage']['regression_replays'] = {'replayed': n_regr, 'returned': len(back)}
+    ev['violations'] += len(back)
     json.dump(ev, open(os.path.join(ROOT, 'evidence', prop + '.json'), 'w'), indent=1)
     print('%s %s: %d runs, %d distinct non-trivial, %d violation classes (%d known), %.1fs' % (
         prop, tier, len(main), ev['coverage']['distinct_nontrivial'], len(by_cls), len(known_hits), time.time() - t0))
@@ -771,6 +805,10 @@ def run_sweep(propmod, prop, tier, verif_seed, n_scen, variant='asan', jobs=None
         w.stop()
     for cls, (kf, occ) in sorted(known_hits.items()):
         print('KNOWN-FINDING: property=%s %s [%s; %d points]' % (prop, kf['what_fails'], cls, len(occ)))
+    back, n_regr = regression_replays(propmod, prop, variant, known)
+    for path, v, k in back:
+        print('VIOLATION property=%s replay=%s  # returned (repaired in %s): %s' % (prop, path, k.get('commit', '?'), v))
+        exit_code = max(exit_code, 1)
     # evidence
     wall = time.time() - t0
     absset = set(); sites = {}; probes = {}; faults = {}
@@ -792,6 +830,8 @@ def run_sweep(propmod, prop, tier, verif_seed, n_scen, variant='asan', jobs=None
                         'determinism_reruns': len(det), 'determinism_mismatches': 0, 'components': getattr(propmod, 'COMPONENTS', {}),
                         'violation_classes': {kk: len(vv) for kk, vv in by_cls.items()}, 'known_findings_matched': sorted(known_hits)},
            'assumptions': getattr(propmod, 'ASSUMPTIONS', []), 'wall_s': round(wall, 2), 'violations': sum(1 for c in by_cls if c not in known_hits)}
+    evd['coverage']['regression_replays'] = {'replayed': n_regr, 'returned': len(back)}
+    evd['violations'] += len(back)
     json.dump(evd, open(os.path.join(ROOT, 'evidence', prop + '.json'), 'w'), indent=1)
     print('%s %s: %d scenarios, %d fault points, %d distinct non-trivial, %d violation classes (%d known), %.1fs' % (
         prop, tier, len(bases), len(main), len(absset), len(by_cls), len(known_hits), wall))
